@@ -190,8 +190,10 @@ impl PartialEq for Variable {
             | (Variable::Int(value1), Variable::Int(value2))
             | (Variable::Float(value1), Variable::Float(value2))
             | (Variable::String(value1), Variable::String(value2))
-            | (Variable::Tuple(value1), Variable::Tuple(value2))
-            | (Variable::Struct(value1), Variable::Struct(value2)) => value1 == value2,
+            | (Variable::Tuple(value1), Variable::Tuple(value2)) => value1 == value2,
+            // `Arc<T: Eq>` equality answers true for the same allocation without looking at the
+            // contents; a struct holding a NaN is not equal to itself, like an array or a tuple
+            (Variable::Struct(value1), Variable::Struct(value2)) => **value1 == **value2,
             (Variable::Function(value1), Variable::Function(value2))
             | (Variable::Mut(value1), Variable::Mut(value2)) => Arc::ptr_eq(value1, value2),
             (Variable::Void, Variable::Void) => true,
